@@ -9,6 +9,7 @@ refuses longer cursors, and no object in memory is larger.
 -/
 namespace AwsVerif.Props.C12
 open AwsVerif.Xml
+open AwsVerif.Gen
 
 /-- every view of an event lies inside the document block -/
 def EventInside (doc : Bytes) (e : Event) : Prop :=
@@ -126,6 +127,49 @@ theorem c12_closing_tag_search (doc : Bytes) (hH : doc.length ≤ HALF) (st : PS
   rw [show st.cur.off + (renderKids kids).length + (closePatOf nm).length = st.cur.off + (renderKids kids ++ closePatOf nm).length by
     simp only [List.length_append]; omega]
   rw [drop_of_drop hd, ← List.append_assoc, drop_append_left']
+
+/-- C12 tie to the current source (`Gen/XmlConsts.lean`, regenerated from xml_parser.c and xml_parser_impl.h
+by every run): the limits, array sizes, list capacities, literal sets and guards *as written now* stand in
+the relations the theorems above rest on -
+ * documented limits: default depth 20, names up to exactly 256 bytes pass the length test;
+ * a name that passes the test fits `name_open` as `<name` and `name_close` as `</name>` (no
+   `aws_byte_buf_append` whose result is ignored can fail), and neither buffer exceeds its array;
+ * the split list holds the name + 10 attribute pieces, `node->attributes` 10, the pair list the 2 pieces that
+   `split_on_char_n(…, '=', 1, …)` yields, every attribute piece has a slot, no list exceeds its backing array;
+ * the patterns are `<`name and `</`name`>`; split characters ' ' and '='; '/' marks empty / closing tags;
+   preamble markers are '?' and '!'; no name-end delimiter is a name byte, '>' and ' ' are delimiters;
+ * the depth test is `>=`, the child loop runs while `parser->error == 0`, `max_depth` defaults to 20, the trim
+   predicate tests for '"'.
+(`Model/Xml.lean` computes with the generated capacities, buffer sizes, tests and sets.) -/
+theorem c12_source_constants :
+    (XmlConsts.maxDocumentDepth = 20 ∧ XmlConsts.maxNameLen = 256 ∧
+      ∀ len, XmlConsts.nameTooLong (len + XmlConsts.closingOverhead) = false ↔ len ≤ 256) ∧
+    (∀ nm : Bytes, XmlConsts.nameTooLong (nm.length + XmlConsts.closingOverhead) = false →
+      bufAppend XmlConsts.openBufCap (bufAppend XmlConsts.openBufCap [] [Xml.LT]) nm = Xml.LT :: nm ∧
+      bufAppend XmlConsts.closeBufCap (bufAppend XmlConsts.closeBufCap (bufAppend XmlConsts.closeBufCap
+        (bufAppend XmlConsts.closeBufCap [] [Xml.LT]) [SLASH]) nm) [Xml.GT] = Xml.LT :: SLASH :: (nm ++ [Xml.GT])) ∧
+    (XmlConsts.openBufCap ≤ XmlConsts.nameOpenSize ∧ XmlConsts.closeBufCap ≤ XmlConsts.nameCloseSize) ∧
+    (SPLIT_CAP = 11 ∧ ATTR_CAP = 10 ∧ PAIR_CAP = 2 ∧ XmlConsts.attrLoopStart = 1 ∧
+      SPLIT_CAP - XmlConsts.attrLoopStart ≤ ATTR_CAP ∧ XmlConsts.attrSplitN = 1 ∧ XmlConsts.attrSplitN + 1 ≤ PAIR_CAP ∧
+      XmlConsts.splitListCap ≤ XmlConsts.splitListBacking ∧ XmlConsts.attrListCap ≤ XmlConsts.attrListBacking ∧
+      XmlConsts.pairListCap ≤ XmlConsts.pairListBacking) ∧
+    (XmlConsts.openPrefix = [Xml.LT] ∧ XmlConsts.openSuffix = [] ∧ XmlConsts.closePrefix = [Xml.LT, SLASH] ∧
+      XmlConsts.closeSuffix = [Xml.GT] ∧ XmlConsts.declSplitChar = SPACE ∧ XmlConsts.attrSplitChar = EQS ∧
+      XmlConsts.emptyMarker = SLASH ∧ XmlConsts.parentCloseMarker = SLASH) ∧
+    (∀ c, XmlConsts.preambleMarkers.contains c = true ↔ (c = QMARK ∨ c = BANG)) ∧
+    ((∀ x ∈ XmlConsts.nameEndBytes, nameByte x = false) ∧ isNameEnd Xml.GT = true ∧ isNameEnd SPACE = true) ∧
+    (∀ d m, XmlConsts.depth_exceeded d m ≠ 0 ↔ d ≥ m) ∧
+    (∀ e, XmlConsts.loop_continues e ≠ 0 ↔ e = 0) ∧
+    (∀ m, XmlConsts.effective_max_depth m = effMaxDepth m) ∧
+    (∀ n, XmlConsts.quote_pred n = decide (n = QUOTE.toNat)) := by
+  refine ⟨⟨by decide, by decide, fun len => ?_⟩, fun nm h => patterns_fit h, buffers_within_arrays, ?_, ?_,
+    preambleMarkers_iff, ⟨nameEnd_not_nameByte, by decide, by decide⟩, depth_test_bridge, loop_guard_bridge, ?_, quote_pred_bridge⟩
+  · have := nameTooLong_iff len; simpa [MAX_NAME_LEN] using this
+  · have h1 := every_attr_piece_has_a_slot; have h2 := pair_split_fits; have h3 := list_caps_within_backing
+    exact ⟨SPLIT_CAP_eq, ATTR_CAP_eq, PAIR_CAP_eq, h1.1, h1.2, h2.1, h2.2, h3.1, h3.2.1, h3.2.2.1⟩
+  · have h1 := pattern_pieces; have h2 := literal_bytes
+    exact ⟨h1.1, h1.2.1, h1.2.2.1, h1.2.2.2, h2.1, h2.2.1, h2.2.2.1, h2.2.2.2⟩
+  · intro m; rw [effective_max_depth_bridge]; rfl
 
 /-- verdict of a run, for the concrete examples -/
 def verdict : Except Fault Result → Option (Bool × Nat)
